@@ -545,14 +545,18 @@ def passphrases(allow_none=True, min_size=0):
             _tagged(st.text(min_size=min_size, max_size=12),
                     st.binary(min_size=min_size, max_size=12))]
 
-    if min_size == 0:
-        opts.append(st.sampled_from([{'s': ''}, {'b': ''}]))
-
     if allow_none:
         opts.append(st.none())
         opts.append(st.none())
 
-    return st.one_of(opts)
+    base = st.one_of(opts)
+
+    if min_size == 0:
+        # an empty passphrase is not the same as no passphrase
+        return st.one_of(base, base, base, base, base, base,
+                         st.sampled_from([{'s': ''}, {'b': ''}]))
+
+    return base
 
 
 # --------------------------------------------------------------------------
@@ -633,7 +637,15 @@ def pyca_must_read(mat: Mat, fmt, pp, cipher, hname, ver) -> bool:
         return False
 
     if fmt == 'pkcs1-pem':
-        return cipher in PYCA_CIPHERS
+        # PyCA's own legacy-PEM decryptor knows no AES-192
+        return cipher in PYCA_CIPHERS and cipher != 'aes192-cbc'
+
+    if ver == 1:
+        # PKCS#12 PBE takes a BMPString password: asyncssh converts str
+        # passphrases, bytes are used as they are (not comparable)
+        if (cipher, hname) in (('des3-cbc', 'sha1'), ('rc4-128', 'sha1')):
+            return 's' in pp
+        return (cipher, hname) == ('des-cbc', 'md5')
 
     return ver == 2 and cipher in PYCA_CIPHERS and hname in PBES2_HASHES
 
@@ -1005,11 +1017,15 @@ def private_strategy(tier: str):
                                    ['bogus']))
         pp = draw(passphrases())
 
-        if fmt == 'openssh' and pp is not None and draw(st.integers(0, 9)):
-            pp = None       # only the refusal can be observed: keep it rare
+        rare = st.sampled_from([True] + [False] * 11)
 
-        if fmt == 'pkcs1-der' and pp is not None and draw(st.integers(0, 5)):
-            pp = None
+        if key['t'] in ('ed25519', 'ed448') and fmt.startswith('pkcs1') \
+                and not draw(rare):
+            fmt = 'pkcs8' + fmt[5:]     # PKCS#1 has no EdDSA: keep it rare
+
+        if fmt in ('openssh', 'pkcs1-der') and pp is not None and \
+                not draw(rare):
+            pp = None       # only the refusal can be observed: keep it rare
 
         if fmt == 'pkcs1-pem':
             cipher = draw(st.sampled_from(PKCS1_CIPHERS * 3 + ALL_CIPHERS))
@@ -1235,6 +1251,11 @@ def public_strategy(tier: str):
         fmt = draw(st.sampled_from(PUB_FORMATS * 5 + ['rfc4716'] * 5 +
                                    ['openssh'] * 3 + ['bogus']))
         comment = draw(line_comments())
+
+        if key['t'] != 'rsa' and key['t'] != 'dsa' and \
+                fmt.startswith('pkcs1') and \
+                not draw(st.sampled_from([True] + [False] * 7)):
+            fmt = 'pkcs8' + fmt[5:]     # PKCS#1 has no EC/EdDSA public keys
 
         if fmt == 'openssh' and comment is not None:
             b = bytes.fromhex(comment['b']).strip(WS)
@@ -1815,6 +1836,7 @@ def check_cert_validate(c2, want, case, sig) -> None:
     """validate() agrees with the fields, at the harness clock"""
 
     for now in case['nows']:
+        now = min(now, 2 ** 53 - 1)     # exactly representable as a float
         _DET.now = float(now)
         ctype = want['type']
         principal = case['principal']
@@ -2596,12 +2618,23 @@ def keygen_strategy(tier: str):
                                   ['pub-e'] * 2 + ['convert'] * 3 +
                                   ['gen'] * 2 + ['hw'] * 2 + ['cert-L'] * 3 +
                                   ['cert-s'] * 3))
-        key = draw(key_specs('quick', KEYGEN_TYPES))
+        def kg_key(rsa_idx):
+            key = draw(key_specs('quick', KEYGEN_TYPES))
 
-        if key['t'] == 'rsa':
-            key['swap'] = False
-            key['i'] = draw(st.sampled_from([0, 1, 2, 4, 6]))
+            if key['t'] == 'rsa':
+                key['swap'] = False
+                key['i'] = draw(st.sampled_from(rsa_idx))
+            elif key['t'] == 'ec':
+                # OpenSSH policy (sshkey_ec_validate_private): the scalar
+                # must be longer than half the order and below order - 1
+                bits = {'nistp256': 256, 'nistp384': 384,
+                        'nistp521': 521}[key['c']]
+                key['d'] = draw(st.integers(2 ** (bits - 16),
+                                            2 ** (bits - 1)))
 
+            return key
+
+        key = kg_key([0, 1, 2, 4, 6])
         kind = {'rsa': 'rsa', 'dsa': 'dsa', 'ec': 'ec'}.get(key['t'], 'ed')
         case: Dict[str, Any] = {'op': op, 'key': key}
 
@@ -2652,11 +2685,7 @@ def keygen_strategy(tier: str):
                         check=draw(st.integers(0, 2 ** 32 - 1)),
                         bit=draw(st.integers(0, 255)), comment=draw(words))
         else:
-            ca = draw(key_specs('quick', KEYGEN_TYPES))
-
-            if ca['t'] == 'rsa':
-                ca['swap'] = False
-                ca['i'] = draw(st.sampled_from([0, 1, 4]))
+            ca = kg_key([0, 1, 4])
 
             c = draw(cert_specs('quick', printable=True, small_time=True))
 
